@@ -390,8 +390,17 @@ class Result:
         write_evidence(self.prop, self.tier, self.seed, coverage, assumptions, wall, len(self.violations), level)
         for k in self.known:
             print("KNOWN-FINDING: property=%s %s" % (self.prop, k))
+        concrete = any(not noinp for (_, noinp, _) in self.violations)
+        seen = set()
         for (p, noinp, what) in self.violations:
+            if noinp and concrete:
+                # a failing input WAS found by this run: broken ties/proofs are listed as notes beside it
+                print("# also (see %s): %s" % (p, what))
+                continue
             print("# %s" % what)
+            if (p, noinp) in seen:
+                continue
+            seen.add((p, noinp))
             print("VIOLATION property=%s replay=%s%s" % (self.prop, p, " no-failing-input-found" if noinp else ""))
         sys.stdout.flush()
         return 1 if self.violations else 0
